@@ -311,3 +311,77 @@ def valuations(free, lengths, width):
     doms = [range(0, width + 1)] * len(lengths) + [range(-(width // 2) - 1, 2 * width + 1)] * len(free)
     for vals in itertools.product(*doms):
         yield dict(zip(names, vals))
+
+
+def eval_pure(fn, args, fuel=400):
+    """Value of a small pure function over integers / booleans (a byte-class predicate such as is_whitespace, the quoting test of the
+    writer) for given argument values - a term evaluation over a finite domain, used to compare two such predicates pointwise.  Handles
+    loop-free MIR with copies (through references), constants, comparisons, bit operations and boolean switches; anything else raises
+    Unsupported."""
+    env = {}
+    for i, a in enumerate(args):
+        env[i + 1] = a
+
+    def place(pl):
+        if any(p_ != "deref" for p_ in pl.get("p", [])):
+            raise Unsupported("projection in a pure predicate")
+        if pl["l"] not in env:
+            raise Unsupported("local %d read before it is set" % pl["l"])
+        return env[pl["l"]]
+
+    def operand(op):
+        if op.get("k") == "const":
+            if "int" in op:
+                return op["int"]
+            raise Unsupported("non-integer constant")
+        return place(op["pl"])
+    bb = 0
+    while fuel > 0:
+        fuel -= 1
+        b = fn.blocks[bb]
+        for st in b["stmts"]:
+            if st["k"] != "assign":
+                continue
+            if "p" in st["lhs"]:
+                raise Unsupported("store through a projection")
+            rv = st["rv"]
+            k = rv["k"]
+            if k == "use":
+                v = operand(rv["op"])
+            elif k in ("ref", "rawptr"):
+                v = place(rv["pl"])
+            elif k == "cast":
+                v = operand(rv["op"])
+            elif k == "bin":
+                x, y = operand(rv["a"]), operand(rv["b"])
+                op = rv["op"]
+                v = {"Eq": x == y, "Ne": x != y, "Lt": x < y, "Le": x <= y, "Gt": x > y, "Ge": x >= y,
+                     "BitAnd": x & y, "BitOr": x | y, "BitXor": x ^ y}.get(op)
+                if v is None:
+                    raise Unsupported("operator %s" % op)
+                v = int(v)
+            elif k == "un" and rv["op"] == "Not":
+                v = int(not operand(rv["a"]))
+            else:
+                raise Unsupported("rvalue %s" % k)
+            env[st["lhs"]["l"]] = v
+        t = b["term"]
+        if t["k"] == "return":
+            return env.get(0)
+        if t["k"] == "goto":
+            bb = t["target"]
+        elif t["k"] == "switch":
+            v = operand(t["discr"])
+            nxt = None
+            for val, tgt in t["targets"]:
+                if int(val) == int(v):
+                    nxt = tgt
+            bb = nxt if nxt is not None else t["otherwise"]
+        elif t["k"] == "call":
+            rp = (t.get("func", {}).get("res") or {}).get("rpath") or t.get("func", {}).get("fn") or ""
+            if rp.endswith("RangeInclusive::<Idx>::contains") or rp.endswith("::contains"):
+                raise Unsupported("range contains")
+            raise Unsupported("call of %s" % rp)
+        else:
+            raise Unsupported("terminator %s" % t["k"])
+    raise Unsupported("out of fuel")
